@@ -15,6 +15,7 @@ func init() { register("C08", checkC08) }
 
 func checkC08(c *Ctx) {
 	r := c.R
+	r.Rule("R13.2", "(shared with C13) no record nobody logged: the sink reports a failed Write at most once, at the severity its own recursion guard tests, through a gated entry point of the same logger")
 	r.Rule("R08.7", "lock discipline: every mutex the package acquires is released on every path to a return, and while it is held no call is made that can come back to an acquisition of the same mutex (the sink logs its own failure diagnostic through the same logger); on the pinned default build the package acquires none")
 	r.Rule("R08.1", "shared-write rule (race freedom by ownership): every store on the logging path (field store, element store, map update, store through a pointer, package-variable store) targets memory owned by the call: the pooled PrintCtx of this call and what hangs off it, the pooled per-call attribute slice, locals and fresh allocations. A store whose target is a field of a logger or writer set, a package-level variable (other than the atomic size hint), or of unknown provenance is a violation")
 	r.Rule("R08.2", "in-place mutators get owned slices only: every slice that reaches the sort/de-duplication (and any other in-place slice mutator on the path) originates, over all call chains, from the per-call pooled slice, a fresh allocation, or an explicit copy (slices.Clone); never from a group's member list, a logger's attribute list, or a caller-supplied slice")
@@ -45,6 +46,7 @@ func checkC08(c *Ctx) {
 		c09Globals(c, p, m)
 		c13Fanout(c, p, m)
 		lockDiscipline(c, p, "R08.7")
+		c13Reaction(c, p, m)
 	}
 	r.Rule("R08.5", "the record of exactly one call: in each output mode no field of the pooled encoder is read before the current call wrote it (engine E10, shared with R09.1), so nothing another call formatted can appear in this call's payload")
 	r.Rule("R02.1", "(shared with C02) at most one emission per call")
@@ -773,6 +775,41 @@ func c08Pools(c *Ctx, p *Prog, m *Model) {
 		}
 		if !after(get, put) {
 			probs = append(probs, "Put does not follow Get")
+		}
+		// what goes back is what was taken (grown, emptied): never a list that belongs to the caller
+		if get.Value() != nil {
+			var putVals []ssa.Value
+			if cal := calleeOf(put); cal != nil && release[cal] {
+				putVals = put.Common().Args
+			} else if len(put.Common().Args) > 1 {
+				putVals = put.Common().Args[1:2]
+			}
+			fromGet := false
+			for _, pv := range putVals {
+				if dependsOn(pv, get.Value()) {
+					fromGet = true
+				}
+				// through a local variable whose address is taken (collected into by a helper)
+				for v := strip(pv); ; {
+					if sl, isSl := v.(*ssa.Slice); isSl {
+						v = strip(sl.X)
+						continue
+					}
+					if ld, isLd := v.(*ssa.UnOp); isLd && ld.Op == token.MUL {
+						if al, isAl := ld.X.(*ssa.Alloc); isAl {
+							for _, ref := range *al.Referrers() {
+								if st, isSt := ref.(*ssa.Store); isSt && st.Addr == ssa.Value(al) && dependsOn(st.Val, get.Value()) {
+									fromGet = true
+								}
+							}
+						}
+					}
+					break
+				}
+			}
+			if !fromGet && len(putVals) > 0 {
+				probs = append(probs, "the slice put back into the pool is not the one taken from it ("+m.valDesc(strip(putVals[len(putVals)-1]))+"): a list that belongs to the caller becomes the scratch list of later records, which overwrite it")
+			}
 		}
 		// emission lies between
 		emitted := false
